@@ -28,9 +28,54 @@ def inputs(chk):
         fn = rng.choice(sorted(files))
         files[fn] = corpus.mutate_tokens(rng, files[fn], 1)
         jobs.append(("tok1:" + name, files))
+    jobs += generated_near_valid(chk, rng)
     from props import c06
     jobs += c06.regress_inputs()
     return jobs
+
+
+def generated_near_valid(chk, rng):
+    """well-typed programs of tools/capygen.py (the fragment of CapySem.tla: pointers, slices, sum
+    types, generics-free functions, varargs, casts, ...) with ONE breaking change each: a
+    mutability-, type- or scope-breaking change made on the abstract syntax, or a single-token
+    mutation of the text"""
+    import copy
+    import capygen
+    from props import c08
+    out = []
+    n = 240 if chk.tier == "quick" else 6000
+    for k in range(n):
+        g = capygen.Gen(chk.seed * 7001 + 70000 + k, size=8 + k % 10)
+        p = g.program()
+        kind = ("mut", "type", "scope", "tok", "none")[k % 5]
+        q = copy.deepcopy(p)
+        lets, uses = [], []
+
+        def walk(x):
+            if isinstance(x, dict):
+                if x.get("s") == "let" and not x.get("lambda") and isinstance(x.get("ty"), (tuple, list)):
+                    lets.append(x)
+                if x.get("e") == "var":
+                    uses.append(x)
+                for v in x.values():
+                    walk(v)
+            elif isinstance(x, list):
+                for v in x:
+                    walk(v)
+        walk(q["fns"])
+        if kind == "mut" and lets:
+            for l in rng.sample(lets, min(3, len(lets))):
+                l["mut"] = False                     # `x : T : v` - a later store to x is an error
+        elif kind == "type" and lets:
+            l = rng.choice(lets)
+            l["ty"] = rng.choice([capygen.BOOL, capygen.I32, capygen.REC_P, ("arr", 2, capygen.U8), capygen.CHAR])
+        elif kind == "scope" and uses:
+            rng.choice(uses)["n"] = rng.choice(["undefined_zz", "v_9999", "main"])
+        text = c08.prelude() + capygen.Render().program(q)
+        if kind == "tok":
+            text = corpus.mutate_tokens(rng, text, 1)
+        out.append(("gen-%s:%d" % (kind, k), {"main.capy": text}))
+    return out
 
 
 ERRORS = ["bits :: 32; bits = 64;",                 # assignment to an immutable binding
